@@ -201,7 +201,7 @@ PROPS = {
                      "zarr writes a chunk as temp file + replace; consolidate_metadata writes .zmetadata last"],
     ),
     "C01": dict(
-        units=["GenBuffer", "GenSanitise", "GenEncoders", "GenExplode"],
+        units=["GenBuffer", "GenSanitise", "GenEncoders", "GenExplode", "GenTransform"],
         trusted_extra=["translator/buf2coq.py (core.BufferedArray and the flush helpers -> Gen/GenBuffer.v)"],
         props_files=["Props/C01.v"],
         driver="c01",
